@@ -12,6 +12,7 @@ pub mod c14;
 pub mod c16;
 pub mod c19;
 pub mod c18_rsim;
+pub mod c19_proc;
 pub mod c20;
 pub mod c20_agent;
 
